@@ -36,7 +36,7 @@ def generated_corpus(ctx, *, canonical=True, extended=True, kernels=True):
     recs = []
     cap = 12000 if quick else 250000
     if kernels and extended:
-        for cfg in (["MC_Doc_ref2.cfg", "MC_Doc_cw2.cfg", "MC_Doc_struct.cfg", "MC_Doc_switch.cfg"] if quick else
+        for cfg in (["MC_Doc_ref2.cfg", "MC_Doc_ref3s.cfg", "MC_Doc_cw2.cfg", "MC_Doc_struct.cfg", "MC_Doc_switch.cfg"] if quick else
                     ["MC_Doc_ref3.cfg", "MC_Doc_cw3.cfg", "MC_Doc_struct.cfg", "MC_Doc_switch5.cfg"]):
             recs += gen_docs(ctx, cfg, max_n=cap)
     nsim = 750 if quick else 15000       # per worker (4 workers)
